@@ -3,6 +3,7 @@ CONSTANTS
   NSock = 2
   Tokens = {1, 2, 3, 4, 5}
   MaxTotal = 3
-  Variants = {"code", "shared", "persegment"}
+  Cap = 2
+  Variants = {"code", "shared", "persegment", "capbuffer"}
 INVARIANT Conforms
 CHECK_DEADLOCK FALSE
